@@ -1,7 +1,7 @@
 (* C07/Proofs.v -- the functional-tree theorem: for every well-formed tree of the model,
    fprox returns THE proximal point of fval (all trees, all sizes, all admissible steps). *)
 From Coq Require Import ZArith QArith Reals Lra Lia List Bool Psatz.
-From Verif Require Import Base.Num Base.Vec Base.VecR C07.Model C07.Convex C07.Leaves C07.LeafThms C07.Rules C07.L2 C07.Compose C07.Sorting.
+From Verif Require Import Base.Num Base.Vec Base.VecR C07.Model C07.Convex C07.Leaves C07.LeafThms C07.Rules C07.L2 C07.Compose C07.Sorting C07.Group.
 Import ListNotations.
 Local Open Scope R_scope.
 
@@ -18,6 +18,7 @@ Definition leaf_ok (k : leafR) (w : Rvec) : Prop :=
   | FBox lo hi => bound_ok n lo /\ bound_ok n hi
   | FHuber gamma => 0 <= gamma
   | FGroupL1 _ _ false | FGroupBall _ _ false => True     (* pointwise exponent 1 / inf: same code path as L1 / max-norm ball *)
+  | FGroupL1 m d true => (1 <= d)%nat /\ exists wb, allpos wb /\ length wb = m /\ w = concat (repeat wb d)
   | FSimplex d => 0 <= d /\ (1 <= n)%nat /\ exists c, uniform w c       (* sort-based: uniformly weighted space *)
   | FBall1 | FLInf => (1 <= n)%nat /\ uniform w 1                       (* sort-based: unweighted space *)
   | _ => False
@@ -225,8 +226,15 @@ Proof.
     cbn [sigv]. rewrite Hu at 2. replace (metric (repeat c n) (repeat sg n)) with (repeat (c / sg) n); [exact Pp|].
     clear. induction n; cbn [repeat]; [reflexivity|]. unfold metric, vdiv in *. cbn [vmap2]. rewrite <- IHn. numR.
     reflexivity.
-  - (* GroupL1Norm with pointwise exponent 1 *)
-    destruct two; [contradiction|].
+  - (* GroupL1Norm *)
+    destruct two.
+    { (* pointwise 2-norm: proximal_l1_l2 *)
+      destruct Hk as (Hd1 & wb & Pwb & Lwb & Ew).
+      destruct s as [sg|v|a b]; cbn [leaf_sig_ok leaf_vec_ok] in Hs; [|tauto|contradiction].
+      cbn [needs_scalar]. eexists; split; [reflexivity|].
+      assert (Ln : n = (d * m)%nat).
+      { unfold n. rewrite Ew. clear -Lwb. induction d; cbn [repeat concat]; [reflexivity|]. rewrite app_length, IHd. lia. }
+      cbn [sigv]. rewrite Ln in *. rewrite Ew. apply groupl1_leaf_prox; auto. }
     destruct s as [sg|v|a b]; [| |contradiction]; eexists; (split; [reflexivity|]);
       apply (is_proxs_ext n (@leaf_val R _ _ FL1 w)); try reflexivity; apply l1_leaf_prox; auto.
   - (* IndicatorGroupL1UnitBall with pointwise exponent inf *)
